@@ -40,4 +40,14 @@ theorem v2_handle_order : Facts.c13_v2_handle_order =
 /-- v2 `pcState.height()` is the state's `LastBlockHeight` (model: `p.st.lastHeight + 1`, `+ 2`) -/
 theorem v2_height : Facts.c13_v2_height = true := by decide
 
+/-- `makeRequestersRoutine` creates no requester while `numPending` / the number of requesters is
+at its limit (model: `Pool.routineStep`, constants taken from these facts) -/
+theorem routine_guards : Facts.c13_routine_guards = true := by decide
+theorem maxPendingRequests : Facts.c13_maxPendingRequests = 600 := by decide
+theorem maxTotalRequesters : Facts.c13_maxTotalRequesters = 600 := by decide
+
+/-- `bpRequester.reset` counts the request as pending again only if it had a block (model:
+`Pool.resetReq`; theorem `numPending_is_waiting_requesters`) -/
+theorem reset_guard : Facts.c13_reset_guard = "bpr.block != nil" := by decide
+
 end Tmv.Expect.C13
